@@ -41,7 +41,14 @@ func guardStr(f func() string) (s string) {
 	return s
 }
 
-func c09Menu(other segment.Segment) []c09Op {
+// c09Partners: the other inputs of the menu's merges. They are reloaded for every execution (with
+// the shared segment), so that nothing an execution leaves in them - lazily filled caches, reader
+// state - can leak into the next one.
+type c09Partners struct {
+	other, sameSchema segment.Segment
+}
+
+func c09Menu(pt *c09Partners) []c09Op {
 	stored := func(n uint64) c09Op {
 		return c09Op{fmt.Sprintf("stored(%d)", n), func(seg segment.Segment) string {
 			var b strings.Builder
@@ -128,12 +135,23 @@ func c09Menu(other segment.Segment) []c09Op {
 		}},
 		{"merge([S,S'])", func(seg segment.Segment) string {
 			var w sliceWriter
-			m := ice.Merge([]segment.Segment{seg, other}, []*roaring.Bitmap{bitmapOf(3, 128), nil}, 1<<16)
+			m := ice.Merge([]segment.Segment{seg, pt.other}, []*roaring.Bitmap{bitmapOf(3, 128), nil}, 1<<16)
 			n, err := m.WriteTo(&w, nil)
 			if err != nil {
 				return "ERR " + err.Error()
 			}
 			return fmt.Sprintf("%d:%016x:%v", n, explore.Hash(string(w.b)), m.DocumentNumbers()[1])
+		}},
+		// the shared segment as the LAST input of a merge whose inputs all have the same field list
+		// (the merge takes its "fields are the same" paths and works from the last input's tables)
+		{"merge([T,S])", func(seg segment.Segment) string {
+			var w sliceWriter
+			m := ice.Merge([]segment.Segment{pt.sameSchema, seg}, []*roaring.Bitmap{nil, bitmapOf(3, 128)}, 1<<16)
+			n, err := m.WriteTo(&w, nil)
+			if err != nil {
+				return "ERR " + err.Error()
+			}
+			return fmt.Sprintf("%d:%016x:%v", n, explore.Hash(string(w.b)), m.DocumentNumbers()[0])
 		}},
 	}
 }
